@@ -30,7 +30,7 @@ The leaves' `RT` / `RTp` and `Lead` facts are the pyvc contracts of contracts/c1
 Assumed (listed in the evidence): component calls are functions of their arguments (no state between calls; the bounded
 tier runs shared instances across boards for exactly that), the hand translation of these step contracts into the
 inductive relations of the Lean file, Python list/str/tuple semantics as modelled by pyvc.  Rooms / ValuedRooms (flood
-fill, sorting) and DecInt (greedy digits) are not covered here: bounded.
+fill, sorting) are not covered here: bounded.  DecInt is a leaf contract (c15_leaf_codecs.decint_roundtrip).
 """
 import z3 as _z3
 
